@@ -226,3 +226,53 @@ func VerifC16Protobuf() {
 	rt.Assert("c16.pb.same", sameEnv(e1, d1) && sameEnv(e2, d2))
 	rt.Assert("c16.pb.no-overread", !cr.overRead && cr.pos == len(cr.data))
 }
+
+// VerifC16Long: long fields delivered in very many small chunks: a byte slice,
+// a string and a big integer of len bytes (symbolic content) read through
+// uniform chunks of 1, 2 or 3 bytes - several hundred reads per field.
+func VerifC16Long() {
+	n := []int{101, 130, 255}[rt.Choice(3)]
+	chunk := 1 + rt.Choice(3)
+	site := rt.Choice(3)
+	payload := rt.NondetBytes(8)
+	mk := func(l int) []byte { // l bytes: zeros with 8 arbitrary bytes at the end
+		b := make([]byte, l)
+		copy(b[l-8:], payload)
+		return b
+	}
+	var enc bytes.Buffer
+	var check func(r io.Reader) bool
+	switch site {
+	case 0:
+		b := mk(n)
+		rt.Assume(perunio.Encode(&enc, b) == nil)
+		check = func(r io.Reader) bool {
+			x := make([]byte, len(b))
+			return perunio.Decode(r, &x) == nil && bytes.Equal(x, b)
+		}
+	case 1:
+		s := string(mk(n))
+		rt.Assume(perunio.Encode(&enc, s) == nil)
+		check = func(r io.Reader) bool { var x string; return perunio.Decode(r, &x) == nil && x == s }
+	case 2:
+		l := 40 // (the engine bounds symbolic big integers to 40 bytes)
+		b := mk(l)
+		b[0] = 1
+		v := new(big.Int).SetBytes(b)
+		rt.Assume(perunio.Encode(&enc, v) == nil)
+		check = func(r io.Reader) bool { var x *big.Int; return perunio.Decode(r, &x) == nil && rt.BigEq(x, v) }
+	}
+	tail := []byte{0xaa, 0xbb}
+	enc.Write(tail)
+	cr := &chunkReader{data: enc.Bytes()}
+	cr.next = func(max int) int {
+		if chunk < max {
+			return chunk
+		}
+		return max
+	}
+	ok := check(cr)
+	rt.Reach("c16.long")
+	rt.Assert("c16.long.same-value", ok)
+	rt.Assert("c16.long.no-overread", !cr.overRead && cr.pos == len(cr.data)-len(tail))
+}
